@@ -80,8 +80,11 @@ def parse_spec(path, contracts=None, consts=None):
             cur.ensures = [rn(x) for x in other.ensures]
             cur.assigns = [(t, rn(x)) for t, x in other.assigns]
             cur.req_asp, cur.ens_asp, cur.asg_asp = list(other.req_asp), list(other.ens_asp), list(other.asg_asp)
-            cur.extra.update(other.extra)
+            for kk, vv in other.extra.items():
+                cur.extra[kk] = [rn(x) for x in vv] if isinstance(vv, list) else vv
             cur.extra['same_as'] = other.name
+        elif key in ('ghost_pre', 'ghost_post'):
+            cur.extra.setdefault(key, []).append(val)
         elif key == 'invariant':
             cur.extra.setdefault('invariants', []).append(val)
         else:
@@ -125,7 +128,7 @@ NONDET = {'double': 'nondet_double()', 'ulong': 'nondet_ulong()', 'int': 'nondet
 
 GHOST_DECL = '''
 int bx_exc;
-double g_tlast; double g_evis; double g_enom; unsigned long g_draws; unsigned long g_np;
+double g_tlast; double g_evis; double g_enom; unsigned long g_draws; unsigned long g_np; double g_pairE;
 '''
 
 # functions whose real bodies are always used (tiny accessors; no contract needed)
@@ -174,7 +177,35 @@ def stub_text(db, c, consts, mode='light', aspects=ALL_ASPECTS, excl_sites=None)
         if t == 'event':
             continue
         L.append('  %s = %s;' % (lv, NONDET[t]))
+    targets = [lv for (t, lv) in c.assigns if t != 'event']
+    fun = []      # (guard, target, rhs): functional updates, emitted in dependency order
+    rest = []
     for e in ens:
+        # a clause of the form  [guard ||] X == f(old state, arguments)  for an assigned X is a functional update: realise it
+        # as an assignment (same meaning as havoc+assume, but the solver sees a definition instead of an equation)
+        m = re.match(r'^(?:(.+?) \|\| )?([A-Za-z_][\w]*) == (.+)$', e)
+        if m and m.group(2) in targets and not re.search(r'\b%s\b' % re.escape(m.group(2)), m.group(3)) \
+                and '||' not in m.group(3) and '&&' not in m.group(3) and (m.group(1) is None or '&&' not in m.group(1)) \
+                and not any(f[1] == m.group(2) for f in fun):
+            fun.append((m.group(1), m.group(2), m.group(3)))
+        else:
+            rest.append(e)
+    done = set()
+    pending = list(fun)
+    while pending:
+        progress = False
+        for fc in list(pending):
+            others = [g[1] for g in pending if g is not fc]
+            if not any(re.search(r'\b%s\b' % re.escape(o_), fc[2]) for o_ in others):
+                if fc[0]:
+                    L.append('  if (!(%s)) %s = %s;' % fc)
+                else:
+                    L.append('  %s = %s;' % (fc[1], fc[2]))
+                pending.remove(fc)
+                progress = True
+        if not progress:
+            raise ValueError('cyclic functional clauses in contract ' + c.name)
+    for e in rest:
         L.append('  __CPROVER_assume(%s);' % e)
     if any(t == 'event' for t, lv in c.assigns):
         ev = [lv for t, lv in c.assigns if t == 'event'][0]
